@@ -19,7 +19,22 @@ func init() { register("eq", &eqEngine{}) }
 
 func quote(v MalType) MalType { return List{Val: []MalType{Symbol{Val: "quote"}, v}} }
 
+// one small value of every kind, empties and singletons included: all ordered pairs are compared (exhaustive),
+// in both orders (symmetry), each with itself (reflexivity)
+var eqAtoms = []MalType{
+	nil, false, true, 0, 1, "", "a", "ʞa", Symbol{Val: "a"}, List{}, Vector{}, HashMap{Val: map[string]MalType{}}, Set{Val: map[string]struct{}{}},
+	ls(nil), vc(nil), vc(List{}), ls(Vector{}), vc(vc()), ls(1), vc(1), ls(ls(1)), vc(ls(1)),
+	HashMap{Val: map[string]MalType{"ʞa": nil}}, HashMap{Val: map[string]MalType{"ʞa": List{}}}, HashMap{Val: map[string]MalType{"ʞa": Vector{}}},
+	HashMap{Val: map[string]MalType{"ʞa": Set{Val: map[string]struct{}{"ʞb": {}}}}}, Set{Val: map[string]struct{}{"ʞa": {}}}, Set{Val: map[string]struct{}{"a": {}}},
+	vc(HashMap{Val: map[string]MalType{}}), vc(Set{Val: map[string]struct{}{}}), ls(false), ls(""), ls(0),
+}
+
 func (e *eqEngine) generate(r *rng, n int, tier string, emit func(string)) {
+	for _, a := range eqAtoms {
+		for _, b := range eqAtoms {
+			emit(render(a) + " | " + render(b))
+		}
+	}
 	for i := 0; i < n; i++ {
 		a := genData(r, 3)
 		var b MalType
